@@ -46,4 +46,4 @@ Create HintDb regen.
 #[global] Hint Unfold bvn_cdf bvn_cdf_gen bvn_std bvn_mid bvn_mid_term bvn_high bvn_high_core bvn_high_term
   linear_ramp uniform_cdf sbvn_cdf : regen.
 
-Ltac regen_solve := intros; first [ reflexivity | (autounfold with regen; cbv beta zeta; timeout 300 (regen_node 40%nat)) ].
+Ltac regen_solve := intros; first [ reflexivity | (autounfold with regen; cbv beta zeta; timeout 3000 (regen_node 40%nat)) ].
